@@ -34,7 +34,8 @@ def handleCache (j : Json) : Json :=
       let files := jstrs e "files"
       -- "window_edit": "<file>" = that build file is edited right after every file was read (complete runs only)
       let (s', rep) :=
-        if jbool e "failing" then runFailing s k files
+        if jbool e "nocache" then runNoCache s k files
+        else if jbool e "failing" then runFailing s k files
         else match jopt e "window_edit", jstop (jstr e "stop") with
           | some f, .never => runWithEdit s k files f
           | _, stop => run s k files stop
